@@ -608,13 +608,17 @@ impl<T: Send, R: ReceiverStore<T>> RendezvousShared<T, R> {
   /// and was removed (the owner keeps its payload); `false` if the handoff
   /// already committed (delivery stands).
   pub(crate) fn cancel_sender(&self, state_ptr: *const AtomicU8, state: &AtomicU8) -> bool {
+    // The WAITING -> CANCELLED transition must happen under the lock: a peer
+    // that popped this record under the lock publishes DONE unconditionally,
+    // so a CAS outside the lock could "win" against a handoff that then
+    // completes anyway (value delivered to a waiter that reports a timeout).
+    let mut core = self.core.lock();
     if state
       .compare_exchange(WAITING, CANCELLED, Ordering::SeqCst, Ordering::SeqCst)
       .is_err()
     {
       return false;
     }
-    let mut core = self.core.lock();
     if let Some(pos) = core.sender_waiters.iter().position(|r| r.state == state_ptr) {
       core.sender_waiters.remove(pos);
     }
@@ -625,13 +629,15 @@ impl<T: Send, R: ReceiverStore<T>> RendezvousShared<T, R> {
   /// `WAITING` and was removed; `false` if a sender already committed the
   /// handoff (the item now sits in the receiver's `dest`).
   pub(crate) fn cancel_receiver(&self, state_ptr: *const AtomicU8, state: &AtomicU8) -> bool {
+    // See `cancel_sender`: the state transition is serialized by the lock.
+    let mut core = self.core.lock();
     if state
       .compare_exchange(WAITING, CANCELLED, Ordering::SeqCst, Ordering::SeqCst)
       .is_err()
     {
       return false;
     }
-    self.core.lock().receivers.remove_receiver(state_ptr);
+    core.receivers.remove_receiver(state_ptr);
     true
   }
 }
